@@ -13,16 +13,16 @@ from . import configs, seqcheck, engine  # noqa: E402
 # sequence-level properties: predicate prefixes and the configurations they are decided on
 SEQ = {
     "C01": (["C01."], ["limits", "randsched", "typestate", "core"]),
-    "C02": (["C02."], ["core", "randsched", "eom", "fine", "retarget"]),
-    "C03": (["C03."], ["core", "randsched", "eom", "fine", "phasejump"]),
+    "C02": (["C02."], ["core", "randsched", "eom", "fine", "retarget", "oddmin"]),
+    "C03": (["C03."], ["core", "randsched", "eom", "fine", "phasejump", "localconf", "oddmin"]),
     "C18": (["C18."], ["switch", "rel"]),
     "C04": (["C04."], ["rel"]),
     "C05": (["C05."], ["ham"]),
     "C06": (["C06."], ["render"]),
-    "C07": (["C07."], ["phases", "core", "randsched", "eom", "phasejump", "typestate"]),
+    "C07": (["C07."], ["phases", "core", "randsched", "eom", "eomdrift", "phasejump", "typestate"]),
     "C08": (["C08."], ["template"]),
     "C09": (["C09."], ["core", "typestate", "randsched", "eom", "limits", "template", "rel"]),
-    "C10": (["C10."], ["core", "randsched", "eom", "fine", "retarget", "phasejump"]),
+    "C10": (["C10."], ["core", "randsched", "eom", "fine", "retarget", "phasejump", "oddmin"]),
     "C13": (["C13."], ["typestate", "eom", "template"]),
     "C15": (["C15."], ["eom", "eomdrift", "render"]),
 }
